@@ -108,14 +108,6 @@ func zzCheckStep(e *zzEnv, m *Manager, pre zzPre, err error, ans *zzSeqAnswer, e
 	return true
 }
 
-func zzRaw(t types.Txs) [][]byte {
-	out := make([][]byte, len(t))
-	for i := range t {
-		out[i] = t[i]
-	}
-	return out
-}
-
 func zzHeights() (uint64, uint64) {
 	I := zzsym.U64("I")
 	zzsym.Assume(I >= 1 && I <= 1<<40)
